@@ -22,7 +22,7 @@ type c16File struct {
 
 func c16Pick(i int) c16File {
 	k := verifChoice("kind"+itoaV(i), 7)
-	n := "f" + itoaV(i)
+	n := "m.p" + itoaV(i) // base names with a further dot that share their first component: X.fo yields gen_X.go for the whole X
 	switch k {
 	case 0:
 		return c16File{n + ".fo", c16Valid1, k}
